@@ -605,6 +605,9 @@ def check_property(pid, tier, seed):
             rdir = os.path.join(VERIF, "replays", pid)
             legs = [l for l in prop["legs"] if tier in l.tiers]
             legs += custom_tag_legs(legs)
+            if os.environ.get("VERIF_LEGS"):  # development aid: run only the named legs
+                only = set(os.environ["VERIF_LEGS"].split(","))
+                legs = [l for l in legs if l.name in only]
             for li, leg in enumerate(legs):
                 wkey = tuple(leg.instrument or ())
                 if wkey not in works:
